@@ -10,7 +10,8 @@ Space     ledgers   the most feature-rich members of vt.ledgers12 (n <= 4), one 
                     those + 1 day + {after the span}
           clauses   OPEN ON d in {absent} + D  x  CLOSE in {absent, no date} + {ON e, e in D}  x  CLEAR
                     in {absent, present}; all d <= e, plus every d > e (must be rejected)
-          filter    FROM expression in {none, date >= D1, narration ~ 'buy|conv|Opening|Conversion'}
+          filter    FROM expression in {none, date >= D1, narration ~ 'buy|conv|Opening|Conversion', and the
+                    compile-time constants TRUE, 1 = 1, NOT FALSE, FALSE, NULL}
           kinds     SELECT over postings, BALANCES, JOURNAL, PRINT (entries selected by the compiled
                     statement; additionally the text written by query_execute.execute_print must list
                     the same directive headers)
@@ -87,7 +88,15 @@ FILTERS = {
     'date>=D1': (lambda: A.GreaterEq(col('date'), C(L.DATES[1])), lambda date, narr: date >= L.DATES[1]),
     'narration~': (lambda: A.Match(col('narration'), C(NARR_RE)),
                    lambda date, narr: None if narr is None else bool(re.search(NARR_RE, narr, re.IGNORECASE))),
+    # compile-time constant filters (a literal, and expressions the compiler folds): the clauses must apply
+    # exactly as without a filter; constant FALSE / NULL select nothing
+    'TRUE': (lambda: C(True), lambda date, narr: True),
+    '1=1': (lambda: A.Equal(C(1), C(1)), lambda date, narr: True),
+    'NOT FALSE': (lambda: A.Not(C(False)), lambda date, narr: True),
+    'FALSE': (lambda: C(False), lambda date, narr: False),
+    'NULL': (lambda: C(None), lambda date, narr: None),
 }
+CONSTANT_FILTERS = ('TRUE', '1=1', 'NOT FALSE', 'FALSE', 'NULL')
 
 
 # ---------------------------------------------------------------------------------------------
@@ -523,6 +532,8 @@ class Warm:
         """Execute the configuration's statements on the warm connection -> [(fp, msg, kind, filter)]."""
         out = []
         for (kind, fname), fresh in results.items():
+            if fname in CONSTANT_FILTERS:
+                continue      # row-independent filters add nothing to the history dimension
             stmt = statement(kind, fname, d, e, clear)
             ctext = f'{kind.upper()} {clause_text(d, e, clear, fname)}'
             stats['statements'] += 1
@@ -663,7 +674,7 @@ def shard(shard_i, nshards, seqs, seed):
                     continue
                 for clear in (False, True):
                     for kind in KINDS:
-                        for fname in ('none', 'date>=D1'):
+                        for fname in ('none', 'date>=D1', 'TRUE', '1=1', 'NOT FALSE'):
                             for fp, msg, kind, fname in run_reject(led, d, e, clear, kind, fname, stats):
                                 acc.violation(fp, f'ledger {list(seq)}: {msg}', mkcase(led, d, e, clear, kind, fname, reject=True))
         for k, v in stats.items():
